@@ -52,6 +52,24 @@ def gen_calendars(rnd, tier):
             for eol in (b'\n', b'\r\n'):
                 if tier != 'thorough' and eol == b'\r\n' and k % 2: k += 1; continue
                 cals.append(('gen:multi%d' % k, sep.join(eol.join(c) + eol for c in combo))); k += 1
+    # many ATTENDEE lines (they go into a string pool that grows by doubling): lengths drawn at random and lengths made to fill the
+    # pool exactly (each address plus its terminator; sums of 16, 32, 64, ... ) with more lines following
+    def attcal(lens):
+        L = [b'BEGIN:VCALENDAR', b'BEGIN:VEVENT', b'UID:att', b'SUMMARY:true', b'DTSTART:20300101T000000Z']
+        L += [b'ATTENDEE:mailto:' + b'a' * n for n in lens]
+        return b'\n'.join(L + [b'END:VEVENT', b'END:VCALENDAR', b''])
+    for k in range(60 if tier == 'thorough' else 14):
+        if k % 2:
+            lens = [rnd.randint(1, 40) for _ in range(rnd.randint(3, 12))]
+        else:
+            lens = []; tot = 0; target = rnd.choice([16, 32, 64, 128, 256])
+            while tot < target:
+                n = min(rnd.randint(1, 30), target - tot - 1)
+                if n <= 0: break
+                if target - (tot + n + 1) == 1: n += 1        # never leave a gap that no address fits
+                lens.append(n); tot += n + 1
+            lens += [rnd.randint(1, 40) for _ in range(rnd.randint(1, 3))]
+        cals.append(('att:%d' % k, attcal(lens)))
     # truncated and garbage
     whole = b'\r\n'.join(base) + b'\r\n'
     for cut in rnd.sample(range(1, len(whole)), 12 if tier == 'thorough' else 4):
@@ -119,7 +137,7 @@ def run(tier, seed):
                 p.append(0); parts.append(p)
             groups.append(('model:' + s.hex(), b, parts)); nmodel += 1
     for name, b in cals:
-        groups.append((name, b, partitions(b, rnd, tier)))
+        groups.append((name, b, partitions(b, rnd, tier) if not name.startswith('att:') else [[1] * len(b), [7] * (len(b) // 7 + 1), [64] * (len(b) // 64 + 1)]))
     inp = []; refs = []
     for name, b, parts in groups:
         h = b.hex(); ref = len(inp) + 1
